@@ -13,4 +13,24 @@ if [ ! -x bin/manticheck ] || [ -n "$(find checker -newer bin/manticheck -name '
   (cd checker && go build -o ../bin/manticheck ./cmd/manticheck) || { echo "checker broken: build failed"; exit 2; }
 fi
 export VERIF_TIER=$tier
-exec ./bin/manticheck check --property "$prop" --tier "$tier" --repo "$REPO" --verif "$(pwd)"
+./bin/manticheck check --property "$prop" --tier "$tier" --repo "$REPO" --verif "$(pwd)"
+rc=$?
+if [ "$tier" = thorough ] && [ $rc -eq 0 ] && [ -f "selftest/$prop.json" ]; then
+  # thorough tier: validate the checker itself in both directions on single-edit variants of the
+  # current tree (breaking variants must be reported, benign refactors must stay silent). A failure
+  # here means the checker is broken (exit 2), not that the repository violates the property.
+  out=$(VERIF_REPO="$REPO" python3 selftest/run.py --property "$prop" --jobs 8 2>&1); src=$?
+  echo "$out" | tail -1
+  python3 - "$prop" "$src" <<PYEOF
+import json,sys,re
+prop,src=sys.argv[1],int(sys.argv[2])
+p=f"evidence/{prop}.json"
+ev=json.load(open(p))
+lines="""$out""".splitlines()
+ev["coverage"]["selftest"]={"summary":lines[-1] if lines else "", "exit":src,
+  "variants":[l.strip()[:160] for l in lines if re.match(r"^(pass|FAIL|skipped)",l)]}
+json.dump(ev,open(p,"w"),indent=1)
+PYEOF
+  if [ $src -ne 0 ]; then echo "checker broken: self-test of $prop failed"; echo "$out" | grep -A3 '^FAIL' | head -40; exit 2; fi
+fi
+exit $rc
